@@ -90,12 +90,20 @@ Inductive ev :=
 | ENet (ds : list dgram)                   (* datagrams queued together on the bind *)
 | ESetNonce (j : N) (v : N)                (* hook: send counter of peer j's current keypair *)
 | EExpire (j : N)                          (* hook: peer j's keypairs become older than RejectAfterTime *)
-| EStraggle (j : N) (kin kout : N).
+| EStraggle (j : N) (kin kout : N)
+| ELateSend (j : N).
     (* hook: what a receive routine / SendStagedPackets that passed the isRunning test just before Peer.Stop leaves
        behind: a container of kin inbound elements on peer j's inbound queue and one of kout outbound elements on its
        outbound queue, BEHIND the terminator Stop pushed (the peer is stopped).  Only the autodraining-queue flush of
        Peer.Start or the queue finalisers (after the peer is garbage) give them back.  Handled by xstep below; the
        core step ignores it. *)
+    (* ELateSend j — hook: a caller that looked peer j up while it was still running (handshake worker after a valid
+       response, SendKeepalivesToPeersWithCurrentKeypair, a TUN reader) reaches SendKeepalive / SendStagedPackets only
+       after Peer.Stop has RETURNED (Down, removal or Close), and the peer has not been started again.  The peer may
+       already be removed or the device closed.  SendKeepalive tests isRunning before it takes anything, and
+       SendStagedPackets finds no keypair (ZeroAndFlushAll) and nothing staged: nothing is taken, nothing is staged,
+       nothing is given back.  (The hook refuses to make the call on a running peer, so the event is the identity
+       there too.) *)
 
 (* ------------------------------------------------------------ peers *)
 
@@ -419,6 +427,7 @@ Definition step_state (s : state) (e : ev) : state :=
       | None => s
       end
   | EStraggle _ _ _ => s
+  | ELateSend _ => s
   | EExpire j =>
       match find_peer j (s_peers s) with
       | Some q => with_pa s (put_peer (set_keys q (age_slot (q_prev q)) (age_slot (q_cur q)) (age_slot (q_next q)))
